@@ -1737,6 +1737,272 @@ def _probe_tc(c):
 
 
 # ----------------------------------------------------------------------------------
+# extension round: array shapes / dtypes / strides, accessors, setters, mismatched objects
+# ----------------------------------------------------------------------------------
+def _weird_array(kind, base):
+    """Variants of a 1-D array `base` (numpy): wrong dtype / shape / strides / containers."""
+    import numpy as np
+    b = np.asarray(base)
+    if kind == "strided":
+        return np.repeat(b, 2)[::2]                       # non-contiguous view, same values
+    if kind == "reversed_view":
+        return b[::-1][::-1] if len(b) else b
+    if kind == "fortran2d":
+        return np.asfortranarray(b.reshape((-1, 1)))
+    if kind == "2d":
+        return b.reshape((1, -1))
+    if kind == "0d":
+        return np.array(b[0]) if len(b) else np.array(0)
+    if kind == "float":
+        return b.astype(np.float64) + 0.5
+    if kind == "int8":
+        return b.astype(np.int8)
+    if kind == "uint64big":
+        return b.astype(np.uint64) + np.uint64(2 ** 63)
+    if kind == "object":
+        return np.array([None] * len(b), dtype=object)
+    if kind == "str":
+        return np.array(["x"] * len(b))
+    if kind == "bytes":
+        return b.tobytes()
+    if kind == "list":
+        return b.tolist()
+    if kind == "readonly":
+        c = b.copy()
+        c.setflags(write=False)
+        return c
+    if kind == "bigendian":
+        return b.astype(b.dtype.newbyteorder(">")) if b.dtype.itemsize > 1 else b
+    if kind == "memoryview":
+        return memoryview(np.ascontiguousarray(b))
+    if kind == "longer":
+        return np.concatenate([b, b[:1]]) if len(b) else np.zeros(1, dtype=b.dtype)
+    if kind == "empty":
+        return b[:0]
+    raise ValueError(kind)
+
+
+WEIRD = ["strided", "reversed_view", "fortran2d", "2d", "0d", "float", "int8", "uint64big", "object", "str",
+         "bytes", "list", "readonly", "bigendian", "memoryview", "longer", "empty"]
+
+
+@op("table.columns_weird", [("table", "raw"), ("col", "raw"), ("kind", "raw"), ("how", "raw")], needs="tc")
+def _(c, table, col, kind, how="set"):
+    """set_columns / append_columns / fromdict with ONE column replaced by a weird array."""
+    import tskit
+    t = getattr(c.tc, table)
+    d = t.asdict()
+    d.pop("metadata_schema", None)
+    d[col] = _weird_array(kind, d[col])
+    if how == "set":
+        t.set_columns(**d)
+    elif how == "append":
+        t.append_columns(**d)
+    else:
+        full = c.tc.asdict()
+        td = dict(full[table])
+        td[col] = d[col]
+        full[table] = td
+        c.tc = tskit.TableCollection.fromdict(full)
+        t = getattr(c.tc, table)
+    return [t.num_rows, sum(1 for _ in t)]
+
+
+@op("tc.indexes_weird", [("kind", "raw"), ("which", "raw")], needs="tc")
+def _(c, kind, which="both"):
+    import numpy as np
+    import tskit
+    n = len(c.tc.edges)
+    base = np.arange(n, dtype=np.int32)
+    w = _weird_array(kind, base)
+    kw = {"edge_insertion_order": w if which in ("ins", "both") else base,
+          "edge_removal_order": w if which in ("rem", "both") else base}
+    c.tc.indexes = tskit.TableCollectionIndexes(**kw)
+    return c.tc.has_index()
+
+
+@op("tc.metadata_schema_raw", [("target", "raw"), ("value", "raw")], needs="tc")
+def _(c, target, value):
+    """assign arbitrary strings / bytes as metadata schema through the low-level setter (the
+    Python layer parses the schema; the C layer stores any bytes) and then read rows back."""
+    v = {"empty": "", "garbage": "{not json", "nul": "a\x00b", "long": "x" * 70000, "bytes": b"\xff\xfe",
+         "struct": '{"codec":"struct","type":"object","properties":{"a":{"type":"integer","binaryFormat":"i"}}}',
+         "json": '{"codec":"json"}', "none": None, "int": 7}[value]
+    obj = c.tc if target == "tc" else getattr(c.tc, target)
+    ll = c.tc._ll_tables if target == "tc" else obj.ll_table
+    ll.metadata_schema = v
+    out = [len(str(obj.metadata_schema))]
+    if target != "tc":
+        out.append(sum(1 for _ in obj))
+    else:
+        out.append(len(repr(c.tc.metadata)))
+    return out
+
+
+@op("tc.metadata_raw", [("value", "raw")], needs="tc")
+def _(c, value):
+    v = {"empty": b"", "bytes": b"\xff\x00\xfe", "long": b"x" * 100000, "str": "abc", "none": None, "dict": {"a": 1}}[value]
+    c.tc.metadata = v
+    return len(c.tc.metadata_bytes)
+
+
+@op("tc.reference_sequence", [("field", "raw"), ("value", "raw")], needs="tc")
+def _(c, field, value):
+    v = {"empty": "", "acgt": "ACGT" * 3, "long": "A" * 100000, "nul": "A\x00C", "unicode": "é中", "bytes": b"AC",
+         "none": None, "int": 5, "garbage": "{not json", "json": '{"codec":"json"}'}[value]
+    rs = c.tc.reference_sequence
+    if field == "clear":
+        rs.clear()
+    elif field == "metadata_schema_ll":
+        c.tc._ll_tables.reference_sequence.metadata_schema = v
+    elif field == "metadata":
+        rs.metadata = {"a": 1} if value == "json" else v
+    else:
+        setattr(rs, field, v)
+    cp = c.tc.copy()
+    return [rs.is_null(), len(rs.data), len(rs.url), cp.reference_sequence.equals(rs), len(repr(rs)[:50])]
+
+
+@op("ts.alignments_args", [("kw", "raw")])
+def _(c, kw):
+    L = c.L
+    k = {}
+    for key, val in kw.items():
+        if key in ("left", "right"):
+            k[key] = res_pos(val, L)
+        elif key == "reference_sequence":
+            k[key] = {"L": "A" * int(L), "L-1": "A" * max(int(L) - 1, 0), "L+1": "A" * (int(L) + 1), "empty": "",
+                      "unicode": "é" * int(L), "none": None, "bytes": b"A" * int(L)}[val]
+        else:
+            k[key] = val
+    return sum(len(a) for a in c.ts.alignments(**k))
+
+
+@op("ts.haplotypes_args", [("kw", "raw")])
+def _(c, kw):
+    L = c.L
+    k = {key: (res_pos(val, L) if key in ("left", "right") else val) for key, val in kw.items()}
+    return sum(len(h) for h in c.ts.haplotypes(**k))
+
+
+@op("ts.ibd_accessors", [("opts", "raw"), ("keys", "raw")])
+def _(c, opts, keys):
+    """IdentitySegments accessors with stored / unstored pairs and boundary keys."""
+    n = c.ts.num_nodes
+    r = c.ts.ibd_segments(**opts)
+    out = [r.num_segments, repr(r.total_span)]
+    for name in ("num_pairs", "pairs"):
+        try:
+            out.append(summarise(getattr(r, name)))
+        except Exception as e:
+            out.append(exc_name(e))
+    for key in keys:
+        k = tuple(res_id(x, n) for x in key)
+        try:
+            seglist = r[k]
+            out.append([len(seglist), repr(seglist.total_span), summarise(seglist.left), len(list(seglist))])
+        except Exception as e:
+            out.append(exc_name(e))
+    for f in (len, lambda x: sum(1 for _ in x), str, repr):
+        try:
+            out.append(summarise(f(r)) if not isinstance(f(r), str) else len(f(r)))
+        except Exception as e:
+            out.append(exc_name(e))
+    return out
+
+
+@op("tree.distance_other", [("which", "raw"), ("how", "raw")])
+def _(c, which, how):
+    """kc_distance / rf_distance against a tree of a DIFFERENT tree sequence."""
+    import tskit
+    if how == "fewer_samples":
+        other = c.ts.simplify(c.ts.samples()[:-1], filter_nodes=True) if not len(c.ts.tables.edges.metadata) \
+            else tskit.Tree.generate_star(max(c.ts.num_samples - 1, 2)).tree_sequence
+    elif how == "more_nodes":
+        other = tskit.Tree.generate_balanced(c.ts.num_samples + 3).tree_sequence
+    elif how == "empty":
+        tcx = tskit.TableCollection(1)
+        other = tcx.tree_sequence()
+    elif how == "null_tree":
+        t2 = tskit.Tree(c.ts)
+        return getattr(c.tree, which)(t2) if which == "rf_distance" else c.tree.kc_distance(t2)
+    else:
+        other = tskit.Tree.generate_comb(max(c.ts.num_samples, 2)).tree_sequence
+    t2 = other.first() if other.num_trees else tskit.Tree(other)
+    if which == "rf_distance":
+        return c.tree.rf_distance(t2)
+    if which == "ts_kc":
+        return c.ts.kc_distance(other)
+    return c.tree.kc_distance(t2)
+
+
+@op("tc.pickle_mangled", [("table", "raw"), ("col", "raw"), ("how", "raw")], needs="tc")
+def _(c, table, col, how):
+    """unpickle a table collection whose pickled state (a dict of arrays) was damaged"""
+    import pickle
+    import numpy as np
+    st = c.tc.__getstate__() if hasattr(c.tc, "__getstate__") else c.tc.asdict()
+    st = dict(st)
+    td = dict(st[table])
+    a = np.array(td[col])
+    if how == "short":
+        a = a[:-1]
+    elif how == "long":
+        a = np.append(a, a[-1:] if len(a) else np.zeros(1, dtype=a.dtype))
+    elif how == "float":
+        a = a.astype(np.float64)
+    elif how == "ids_big":
+        a = (a.astype(np.int64) + 2 ** 20).astype(a.dtype) if a.dtype.kind in "iu" else a
+    td[col] = a
+    st[table] = td
+    import tskit
+    new = tskit.TableCollection.__new__(tskit.TableCollection)
+    new.__setstate__(st)
+    c.tc = pickle.loads(pickle.dumps(new))
+    return [len(getattr(c.tc, table)), c.tc.has_index()]
+
+
+@op("ts.stat_arrays", [("stat", "raw"), ("what", "raw"), ("kind", "raw"), ("mode", "raw")])
+def _(c, stat, what, kind, mode="site"):
+    """statistics called with sample_sets / indexes / windows given as weird arrays"""
+    import numpy as np
+    samples = np.array(c.ts.samples()[:2], dtype=np.int32)
+    sets = [samples[:1], samples[1:2]] if stat in MULTI_WAY else [samples]
+    kw = {"mode": mode}
+    if what == "sets":
+        sets = [_weird_array(kind, s) for s in sets]
+    elif what == "sets_flat":
+        sets = _weird_array(kind, samples)
+    elif what == "windows":
+        kw["windows"] = _weird_array(kind, np.array([0, c.L / 2, c.L]))
+    elif what == "indexes" and stat in MULTI_WAY:
+        k = MULTI_WAY[stat]
+        sets = [samples[:1], samples[1:2], samples, samples[::-1]]
+        kw["indexes"] = _weird_array(kind, np.arange(k, dtype=np.int32))
+    return getattr(c.ts, stat)(sets, **kw)
+
+
+@op("ts.time_windows", [("fn", "raw"), ("tw", "raw"), ("kind", "raw")])
+def _(c, fn, tw, kind=None):
+    import numpy as np
+    a = np.array([res_pos(x, 1.0) for x in tw], dtype=float)
+    if kind:
+        a = _weird_array(kind, a)
+    if fn == "counts":
+        return c.ts.pair_coalescence_counts(time_windows=a)
+    if fn == "rates":
+        return c.ts.pair_coalescence_rates(a)
+    if fn == "pca":
+        return summarise(c.ts.pca(1, time_windows=a, random_seed=1)[0]) if hasattr(c.ts, "pca") else None
+    return c.ts.pair_coalescence_quantiles(a)
+
+
+@op("ts.ld_positions", [("positions", "raw"), ("stat", "raw")])
+def _(c, positions, stat="r2"):
+    return c.ts.ld_matrix(mode="branch", stat=stat, positions=[[res_pos(x, c.L) for x in row] for row in positions])
+
+
+# ----------------------------------------------------------------------------------
 # bases
 # ----------------------------------------------------------------------------------
 def valid_bases(rng, k, **kw):
@@ -2021,8 +2287,8 @@ def case_failures(case, obs):
 class Monitor(Family):
     """Common machinery: observe = run the sequence in a grand-child under the sanitizers."""
     timeout = 120.0
-    workers = 8
-    prelude = "From TskVerif Require Import Base.Common Gen.Generated C09.Guards.\nOpen Scope Z_scope."
+    workers = max(1, min(8, int(os.environ.get("VERIF_WORKERS", "6") or 6)))
+    prelude = "From TskVerif Require Import Base.Common Gen.Generated C09.Guards C09.Guards2.\nOpen Scope Z_scope."
     tail = ()
 
     def observe(self, case):
@@ -2130,16 +2396,19 @@ def model_term(k, st, r, obs, case):
                 m = "Tree_depth %s %s %s %s" % (fuel, clist(env["parent"]), cz(N), cz(x))
             else:
                 m = "Tree_get_num_samples %s %s %s" % (_alloc(N + 1), cz(N), cz(x))
+            m = "with_id_parse C09_tree_id_parse_checked [%s] (%s)" % (cz(x), m)
         elif opn == "tree.next_sample":
             x = res_id(a["u"], S)
             if not _ints([x]):
                 return None
-            m = "Tree_get_next_sample %s %s %s %s" % (_alloc(S), cz(S), "true" if env.get("sample_lists") else "false", cz(x))
+            m = "with_id_parse C09_tree_id_parse_checked [%s] (Tree_get_next_sample %s %s %s %s)" % (
+                cz(x), _alloc(S), cz(S), "true" if env.get("sample_lists") else "false", cz(x))
         elif opn == "tree.is_descendant":
             x, y = res_id(a["u"], N), res_id(a["v"], N)
             if not _ints([x, y]):
                 return None
-            m = "Tree_is_descendant %s %s %s %s %s" % (fuel, clist(env["parent"]), cz(N), cz(x), cz(y))
+            m = "with_id_parse C09_tree_id_parse_checked [%s; %s] (Tree_is_descendant %s %s %s %s %s)" % (
+                cz(x), cz(y), fuel, clist(env["parent"]), cz(N), cz(x), cz(y))
         elif opn in ("tree.seek", "ts.at"):
             x = res_pos(a["x"], float(env["L"]))
             if isinstance(x, bool) or not isinstance(x, (int, float)):
@@ -2202,6 +2471,23 @@ def model_term(k, st, r, obs, case):
                 return "(Fin %s)" % cz(rk[float(w)])
             return ("verdict_implies (if check_windows C09_windows_reject_nan %s [%s] then VOk else VRaise) %s"
                     % (cz(rk[L]), "; ".join(flt(w) for w in ws), v))
+        elif opn == "ts.ld_matrix" and a.get("mode", "site") == "site" and a.get("sites") is not None:
+            ns = ts["sites"]
+            rows = [res_id(x, ns) for x in a["sites"][0]] if len(a["sites"]) >= 1 else []
+            cols = [res_id(x, ns) for x in a["sites"][1]] if len(a["sites"]) >= 2 else rows
+            if len(a["sites"]) > 2 or not _ints(rows + cols):
+                return None
+            # one-directional: what check_sites rejects (or lets overrun) the implementation does
+            return "verdict_implies (verdict_of (two_locus_sites_entry true %s %s %s %s)) %s" % (
+                cz(ns), _alloc(ns), clist(rows), clist(cols), v)
+        elif opn == "ts.mean_descendants" and a.get("sets") is not None:
+            sets = [[res_id(x, N) for x in row] for row in a["sets"]]
+            return "verdict_implies (verdict_of (mean_descendants_init %s [%s])) %s" % (
+                cz(N), "; ".join(clist(x) for x in sets), v)
+        elif opn == "ts.gnn" and a.get("sets") is not None and a.get("focal") is not None:
+            sets = [[res_id(x, N) for x in row] for row in a["sets"]]
+            return "verdict_implies (verdict_of (gnn_init %s %s [%s] %s)) %s" % (
+                cz(N), _alloc(N), "; ".join(clist(x) for x in sets), clist([res_id(x, N) for x in a["focal"]]), v)
         elif opn == "tree.ll_map_mutations":
             g = a["g"]
             if g.get("dtype", "int8") not in ("int8", "int32") or g.get("shape2"):
@@ -2805,7 +3091,167 @@ class Sequences(Monitor):
             yield {"base": base, "steps": steps}
 
 
-FAMILIES = [TreeIds, TsIds, Positions, Stats, Tables, MapMutations, RawTables, Sequences]
+
+class Arrays(Monitor):
+    """Extension round: array arguments of the wrong dtype / shape / stride for every table
+    column and for the statistics; accessors and setters that store caller-supplied bytes."""
+    name = "arrays"
+
+    def generate(self, rng, tier):
+        descs = valid_bases(rng, 5 if tier == "quick" else 20, max_sites=4, migrations=True)
+        bases = [base_valid(rng, d) for d in descs]
+        T = [{"op": "probe.tc", "args": {}}]
+        quick = tier == "quick"
+        for t in TABLES:
+            cols = FIXEDCOLS[t] + RAGGED[t] + [c + "_offset" for c in RAGGED[t]]
+            for col in cols:
+                kinds = WEIRD if not quick else rng.sample(WEIRD, 5)
+                for kind in kinds:
+                    for how in ("set", "append", "fromdict") if not quick else (rng.choice(["set", "append", "fromdict"]),):
+                        yield {"base": rng.choice(bases), "steps": [
+                            {"op": "table.columns_weird", "args": {"table": t, "col": col, "kind": kind, "how": how}},
+                            {"op": "table.iterate", "args": {"table": t}}] + T}
+            for col in (FIXEDCOLS[t] + RAGGED[t])[:2]:
+                for how in ("short", "long", "float", "ids_big"):
+                    yield {"base": rng.choice(bases), "steps": [
+                        {"op": "tc.pickle_mangled", "args": {"table": t, "col": col, "how": how}}] + T}
+        for kind in WEIRD:
+            for which in ("ins", "rem", "both"):
+                yield {"base": rng.choice(bases), "steps": [
+                    {"op": "tc.indexes_weird", "args": {"kind": kind, "which": which}},
+                    {"op": "tc.call", "args": {"m": "tree_sequence"}}, {"op": "probe.tree", "args": {}}] + T}
+        for target in ("tc",) + TABLES:
+            for value in ("empty", "garbage", "nul", "long", "bytes", "struct", "json", "none", "int"):
+                if target == "provenances":
+                    continue
+                yield {"base": rng.choice(bases), "steps": [
+                    {"op": "tc.metadata_schema_raw", "args": {"target": target, "value": value}},
+                    {"op": "tc.call", "args": {"m": "copy"}}, {"op": "tc.call", "args": {"m": "dump_load"}}] + T}
+        for value in ("empty", "bytes", "long", "str", "none", "dict"):
+            yield {"base": rng.choice(bases), "steps": [{"op": "tc.metadata_raw", "args": {"value": value}},
+                                                       {"op": "tc.call", "args": {"m": "dump_load"}}] + T}
+        for field in ("data", "url", "metadata_schema", "metadata_schema_ll", "metadata", "clear"):
+            for value in ("empty", "acgt", "long", "nul", "unicode", "bytes", "none", "int", "garbage", "json"):
+                yield {"base": rng.choice(bases), "steps": [
+                    {"op": "tc.reference_sequence", "args": {"field": field, "value": value}},
+                    {"op": "tc.reference_sequence", "args": {"field": "data", "value": "acgt"}},
+                    {"op": "tc.call", "args": {"m": "dump_load"}}, {"op": "tc.call", "args": {"m": "tree_sequence"}},
+                    {"op": "ts.alignments_args", "args": {"kw": {}}}] + T}
+        for kw in ({}, {"reference_sequence": "L"}, {"reference_sequence": "L-1"}, {"reference_sequence": "L+1"},
+                   {"reference_sequence": "empty"}, {"reference_sequence": "unicode"}, {"reference_sequence": "bytes"},
+                   {"missing_data_character": "NN"}, {"missing_data_character": ""}, {"missing_data_character": "é"},
+                   {"missing_data_character": "A"}, {"left": "-1"}, {"left": "L"}, {"right": "L+1"}, {"left": "mid", "right": "0"},
+                   {"left": "nan"}, {"right": "nan"}, {"left": "inf"}, {"left": "0", "right": "0"}, {"right": "eps"},
+                   {"left": "L-eps", "right": "L"}):
+            yield {"base": rng.choice(bases), "steps": [{"op": "ts.alignments_args", "args": {"kw": kw}}, {"op": "probe.ts", "args": {}}]}
+            k2 = {k: v for k, v in kw.items() if k != "reference_sequence"}
+            yield {"base": rng.choice(bases), "steps": [{"op": "ts.haplotypes_args", "args": {"kw": k2}}, {"op": "probe.ts", "args": {}}]}
+        for opts in ({}, {"store_pairs": True}, {"store_segments": True}, {"store_pairs": True, "store_segments": True},
+                     {"store_segments": True, "max_time": 0.5}, {"store_pairs": True, "min_span": 100.0}):
+            keys = [["0", "1"], ["1", "0"], ["0", "0"], ["0", "n"], ["n", "0"], ["-1", "0"], ["max", "0"], ["0", "n-1"], ["0"],
+                    ["0", "1", "1"], ["2^32", "1"]]
+            yield {"base": rng.choice(bases), "steps": [{"op": "ts.ibd_accessors", "args": {"opts": opts, "keys": keys}},
+                                                       {"op": "probe.ts", "args": {}}]}
+        for which in ("kc_distance", "rf_distance", "ts_kc"):
+            for how in ("fewer_samples", "more_nodes", "empty", "null_tree", "comb"):
+                yield {"base": rng.choice(bases), "steps": [{"op": "tree.distance_other", "args": {"which": which, "how": how}},
+                                                           {"op": "probe.tree", "args": {}}]}
+        stats = list(ONE_WAY[:2]) + ["divergence", "f3", "f4"] if quick else list(ONE_WAY) + list(MULTI_WAY)
+        for stat in stats:
+            for what in ("sets", "sets_flat", "windows", "indexes"):
+                for kind in (WEIRD if not quick else rng.sample(WEIRD, 6)):
+                    for mode in ("site", "branch") if not quick else (rng.choice(["site", "branch", "node"]),):
+                        yield {"base": rng.choice(bases), "steps": [
+                            {"op": "ts.stat_arrays", "args": {"stat": stat, "what": what, "kind": kind, "mode": mode}},
+                            {"op": "probe.ts", "args": {}}]}
+        for fn in ("counts", "rates", "quantiles"):
+            for tw in (["0", "1", "inf"], ["0", "inf"], ["inf"], ["0"], [], ["0", "nan", "inf"], ["nan", "inf"], ["0", "0", "inf"],
+                       ["1", "0", "inf"], ["-inf", "inf"], ["0", "1"], ["-1", "inf"], ["0", "inf", "inf"]):
+                yield {"base": rng.choice(bases), "steps": [{"op": "ts.time_windows", "args": {"fn": fn, "tw": tw}},
+                                                           {"op": "probe.ts", "args": {}}]}
+            for kind in (WEIRD if not quick else rng.sample(WEIRD, 5)):
+                yield {"base": rng.choice(bases), "steps": [
+                    {"op": "ts.time_windows", "args": {"fn": fn, "tw": ["0", "1", "inf"], "kind": kind}}]}
+        for positions in ([["0"]], [["nan"]], [["0", "nan"]], [["nan", "0"]], [["inf"]], [["-1"]], [["L"]], [["L-eps"]], [["0"], ["nan"]],
+                          [["mid", "0"]], [["0", "0"]], [["-0.0", "0"]], [["0", "mid", "L-eps"]], [["-inf"]], [["0", "inf"]]):
+            bad = any(x in ("nan", "inf", "-1", "L", "-inf") for row in positions for x in row)
+            for stat in ("r2", "D"):
+                yield {"base": rng.choice(bases), "steps": [
+                    {"op": "ts.ld_positions", "args": {"positions": positions, "stat": stat},
+                     "expect": "raise" if bad else "any"}, {"op": "probe.ts", "args": {}}]}
+
+
+FAILING_CALLS = [
+    {"op": "tc.sort", "args": {"edge_start": "n+1"}}, {"op": "tc.sort", "args": {"site_start": "1"}},
+    {"op": "tc.simplify", "args": {"samples": ["0", "n"], "opts": {}}}, {"op": "tc.simplify", "args": {"samples": ["0", "0"], "opts": {}}},
+    {"op": "tc.subset", "args": {"nodes": ["0", "n"], "opts": {}}},
+    {"op": "tc.subset", "args": {"nodes": ["-1"], "opts": {"reorder_populations": False, "remove_unreferenced": False}}},
+    {"op": "tc.union_self", "args": {"mapping": {"fill": "n"}, "opts": {"check_shared_equality": False}}},
+    {"op": "tc.union_self", "args": {"mapping": {"len": "n-1"}, "opts": {"check_shared_equality": False}}},
+    {"op": "tc.union_other", "args": {"mapping": {"fill": "-1", "set_self": {"0": "n"}}, "opts": {"check_shared_equality": True}}},
+    {"op": "tc.delete_sites", "args": {"sites": ["n"]}}, {"op": "tc.delete_sites", "args": {"sites": ["-1"]}},
+    {"op": "tc.keep_intervals", "args": {"iv": [["mid", "0"]], "opts": {}}}, {"op": "tc.delete_intervals", "args": {"iv": [["0", "L+1"]], "opts": {}}},
+    {"op": "tc.keep_intervals", "args": {"iv": [["0", "nan"]], "opts": {"simplify": False}}},
+    {"op": "tc.delete_older", "args": {"t": "nan"}}, {"op": "tc.link_ancestors", "args": {"samples": ["n+1"], "ancestors": ["0"]}},
+    {"op": "tc.ibd_within", "args": {"within": ["0", "0"], "opts": {}}}, {"op": "tc.ibd_between", "args": {"a": ["0"], "b": ["0"], "opts": {}}},
+    {"op": "tc.set_indexes", "args": {"ins": ["n"], "rem": ["0"], "dtype": "int32"}},
+    {"op": "tc.fromdict_mangled", "args": {"table": "edges", "col": "parent", "how": "short"}},
+] + [x for t in TABLES for x in (
+    {"op": "table.truncate", "args": {"table": t, "k": "n+1"}}, {"op": "table.truncate", "args": {"table": t, "k": "-1"}},
+    {"op": "table.keep_rows", "args": {"table": t, "len": "n+1", "dtype": "bool", "fill": 1}},
+    {"op": "table.ll_keep_rows", "args": {"table": t, "len": "n-1"}},
+    {"op": "table.setitem", "args": {"table": t, "i": "n", "src": "0"}},
+    {"op": "table.set_columns_len", "args": {"table": t, "col": (FIXEDCOLS[t] + RAGGED[t])[0], "len": "n+1"}},
+    {"op": "table.append_columns_len", "args": {"table": t, "col": (FIXEDCOLS[t] + RAGGED[t])[-1], "len": "n-1"}},
+    {"op": "table.set_columns_offset", "args": {"table": t, "col": RAGGED[t][0], "how": "decreasing"}},
+    {"op": "table.set_columns_offset", "args": {"table": t, "col": RAGGED[t][-1], "how": "last+big"}},
+    {"op": "table.columns_weird", "args": {"table": t, "col": (FIXEDCOLS[t] + RAGGED[t])[0], "kind": "longer", "how": "append"}},
+)]
+FOLLOW_UPS = [
+    [{"op": "tc.call", "args": {"m": "sort"}}, {"op": "tc.call", "args": {"m": "tree_sequence"}}, {"op": "probe.tree", "args": {}}],
+    [{"op": "tc.call", "args": {"m": "copy"}}, {"op": "tc.call", "args": {"m": "dump_load"}}, {"op": "tc.call", "args": {"m": "simplify"}}],
+    [{"op": "tc.call", "args": {"m": "build_index"}}, {"op": "tc.call", "args": {"m": "compute_mutation_parents"}},
+     {"op": "tc.call", "args": {"m": "canonicalise"}}],
+    [{"op": "tc.call", "args": {"m": "asdict_fromdict"}}, {"op": "tc.call", "args": {"m": "trim"}}, {"op": "tc.ibd_all", "args": {"opts": {}}}],
+]
+
+
+class BadState(Monitor):
+    """Extension round: a FAILING call of every mutating table / table-collection method,
+    the same method again with valid arguments, then normal use of the same objects."""
+    name = "bad_state"
+
+    def generate(self, rng, tier):
+        descs = valid_bases(rng, 6 if tier == "quick" else 24, max_sites=4)
+        bases = [base_valid(rng, d) for d in descs]
+        reps = 1 if tier == "quick" else 4
+        for _ in range(reps):
+            for k, fc in enumerate(FAILING_CALLS):
+                o = OPS[fc["op"]]
+                valid = {"op": fc["op"], "args": dict(defaults(o), **{p: v for p, v in fc["args"].items()
+                                                                     if p in ("table", "col", "opts", "dtype", "fill", "src")})}
+                if "len" in fc["args"]:
+                    valid["args"]["len"] = "n"
+                if "kind" in fc["args"]:
+                    valid["args"].update(kind="readonly", how="set")
+                if "how" in fc["args"] and "kind" not in fc["args"]:
+                    valid = None
+                if fc["op"] in ("tc.sort", "tc.keep_intervals", "tc.delete_intervals", "tc.delete_older", "tc.union_self",
+                                "tc.union_other", "tc.set_indexes", "table.truncate", "table.setitem"):
+                    valid = None
+                steps = [json.loads(json.dumps(fc))]
+                steps[0]["expect"] = "any"
+                if valid is not None:
+                    valid["expect"] = "any"
+                    steps.append(json.loads(json.dumps(valid)))
+                steps += json.loads(json.dumps(FOLLOW_UPS[k % len(FOLLOW_UPS)]))
+                for st in steps[1:]:
+                    st.setdefault("expect", "any")
+                steps += [{"op": "probe.tc", "args": {}}]
+                yield {"base": rng.choice(bases), "steps": steps}
+
+
+FAMILIES = [TreeIds, TsIds, Positions, Stats, Tables, MapMutations, RawTables, Sequences, Arrays, BadState]
 NOT_COVERED = [
     "PROVED is only the guard logic of the entry points modelled in coq/theories/C09/Guards.v; memory safety "
     "of the compiled C (heap layout, UB in unmodelled code, allocator failure paths) is MONITORED under "
